@@ -47,6 +47,21 @@ type PathState struct {
 	loopy  map[string]bool
 	Infeasible bool
 	defers []Event
+	StopBlock *ssa.BasicBlock // set when the path ended by re-entering this block
+}
+
+// PhiIn returns, for a path that ended by entering StopBlock, the term flowing into phi (a phi of StopBlock).
+func (s *PathState) PhiIn(phi *ssa.Phi) *Term {
+	if s.StopBlock == nil || phi.Block() != s.StopBlock || len(s.Blocks) == 0 {
+		return nil
+	}
+	last := s.Blocks[len(s.Blocks)-1]
+	for j, p := range s.StopBlock.Preds {
+		if p == last {
+			return s.T(phi.Edges[j])
+		}
+	}
+	return nil
 }
 
 func (s *PathState) snapshot() map[string]*Term {
@@ -134,6 +149,30 @@ func (s *PathState) compute(v ssa.Value) *Term {
 		return mk("numconv", typeStr(x.Type()), "numconv<"+typeStr(x.Type())+">("+a.K+")", v, a)
 	case *ssa.BinOp:
 		a, b := s.T(x.X), s.T(x.Y)
+		if ai, ok := a.ConstInt(); ok {
+			if bi, ok := b.ConstInt(); ok {
+				var r int64
+				fold := true
+				switch x.Op {
+				case token.OR:
+					r = ai | bi
+				case token.AND:
+					r = ai & bi
+				case token.AND_NOT:
+					r = ai &^ bi
+				case token.ADD:
+					r = ai + bi
+				case token.SUB:
+					r = ai - bi
+				default:
+					fold = false
+				}
+				if fold {
+					k := fmt.Sprint(r)
+					return &Term{K: "c:" + k, Op: "const", Aux: k, Folded: true, Int: r}
+				}
+			}
+		}
 		return mk("binop", opString(x.Op), "("+a.K+" "+opString(x.Op)+" "+b.K+")", v, a, b)
 	case *ssa.UnOp:
 		if x.Op == token.MUL || x.Op == token.ARROW {
@@ -822,6 +861,13 @@ type EnumResult struct {
 // instruction `target` (exclusive: the state is the one just before target executes), or —
 // when target is nil — to every Return/Panic (inclusive). visit is called once per feasible path.
 func EnumPaths(fn *ssa.Function, from *ssa.BasicBlock, target ssa.Instruction, visit func(*PathState)) EnumResult {
+	return EnumPathsTo(fn, from, target, nil, visit)
+}
+
+// EnumPathsTo is EnumPaths with an optional stop block: when stop != nil (and target == nil) a path ends
+// as soon as control would enter stop again (used for loop bodies: from = stop = loop header). The state then
+// has EndPred set to the last block, so PhiIn can report the values flowing into stop's phis.
+func EnumPathsTo(fn *ssa.Function, from *ssa.BasicBlock, target ssa.Instruction, stop *ssa.BasicBlock, visit func(*PathState)) EnumResult {
 	if from == nil {
 		from = fn.Blocks[0]
 	}
@@ -857,12 +903,13 @@ func EnumPaths(fn *ssa.Function, from *ssa.BasicBlock, target ssa.Instruction, v
 	var path []*ssa.BasicBlock
 	on := map[*ssa.BasicBlock]bool{}
 	var dfs func(b *ssa.BasicBlock)
+	var stopNow *ssa.BasicBlock
 	run := func() {
 		if res.Paths+res.Infeasible >= PathLimit {
 			res.Complete = false
 			return
 		}
-		s := &PathState{Fn: fn, Blocks: append([]*ssa.BasicBlock(nil), path...), env: map[ssa.Value]*Term{}, mem: map[string]*Term{}, memver: map[string]int{}, loopy: loopy}
+		s := &PathState{Fn: fn, Blocks: append([]*ssa.BasicBlock(nil), path...), env: map[ssa.Value]*Term{}, mem: map[string]*Term{}, memver: map[string]int{}, loopy: loopy, StopBlock: stopNow}
 		if !s.interpret(target) {
 			res.Infeasible++
 			return
@@ -889,6 +936,12 @@ func EnumPaths(fn *ssa.Function, from *ssa.BasicBlock, target ssa.Instruction, v
 			}
 		}
 		for _, nx := range b.Succs {
+			if stop != nil && nx == stop && target == nil {
+				stopNow = stop
+				run()
+				stopNow = nil
+				continue
+			}
 			if on[nx] {
 				continue
 			}
@@ -942,9 +995,15 @@ func (s *PathState) interpret(target ssa.Instruction) bool {
 			}
 			s.step(in)
 		}
+		var nextB *ssa.BasicBlock
 		if i+1 < len(s.Blocks) {
+			nextB = s.Blocks[i+1]
+		} else if s.StopBlock != nil {
+			nextB = s.StopBlock
+		}
+		if nextB != nil {
 			if iff, ok := b.Instrs[len(b.Instrs)-1].(*ssa.If); ok {
-				truth := b.Succs[0] == s.Blocks[i+1]
+				truth := b.Succs[0] == nextB
 				if b.Succs[0] == b.Succs[1] {
 					continue
 				}
